@@ -146,6 +146,16 @@ reg(
   "Worlds whose contact/row sets differ from MuJoCo's are skipped (counted).",
 )
 
+reg(
+  "C11",
+  "property-based metamorphic testing (Hypothesis) over harness-owned task schedules: step under a permuted serial thread order == step under the ascending order",
+  "Warp's CPU launch loop is replaced (inside the harness process only) by one that visits the tasks of every launch in descending or pseudo-random permuted order, globally or with a "
+  "different permutation per kernel; rich models (contacts, all constraint kinds, tendons, actuators, sleeping/islands on or off), 1-3 worlds, ample or exactly-fitting capacities, 1-3 steps "
+  "with resynchronisation: overflow bits, counts, contact multisets, keyed constraint-row multisets, island partitions and sleep state must be equal, continuous outputs equal up to re-association round-off.",
+  "Serial orders only (every task runs to completion; no instruction-level interleaving, so missing atomics are out of reach); cases with a capacity overflow bit are discarded; RK4 not generated; "
+  "solver outputs to 2e-3 (Newton) / 2e-2 (CG) scaled by cond(M); worlds that hit the iteration limit are judged on everything except solver outputs.",
+)
+
 NOT_APPLICABLE = {}
 
 
